@@ -464,12 +464,17 @@ def execute(case: dict) -> dict:
         a, b = await pair(conn, listener)
         res: dict = {}
         blocked = {"send": 0}
+        closing: list = []
 
         async def tx() -> None:
             try:
                 while True:
                     await a.send(b"x" * 65536)  # b never reads: blocks after a few rounds
                     blocked["send"] += 1
+                    if closing:
+                        # the send() that was blocked when the stream got closed came back
+                        # as if it had succeeded (its data was dropped)
+                        res["blocked_send_returned_normally_after_close"] = True
             except BaseException as e:  # noqa: BLE001
                 res["send"] = type(e).__name__
                 if isinstance(e, anyio.get_cancelled_exc_class()):
@@ -500,6 +505,7 @@ def execute(case: dict) -> dict:
 
                     last = blocked["send"]
 
+                closing.append(1)
                 await a.aclose()
 
         window("close_with_pending_" + pend)
